@@ -51,7 +51,7 @@ func c10Exec(tr *kernel.Trace, src kernel.Source) *Outcome {
 	o.Evals = int64(o.Stats.Counters["tx.ok"]+o.Stats.Counters["tx.rejected"]) + int64(len(tr.Blocks))*2
 	c := o.Stats.Counters
 	o.Nontrivial = c["probe.params_changed_by_passed_proposal"] > 0 || c["fault.export_restart"] > 0 || c["fault.crash_in_commit"] > 0
-	o.Fingerprint = fingerprint(statsClasses(&o.Stats, "probe.", "fault."), len(o.Violations) > 0)
+	o.Fingerprint = fingerprint(statsClasses(&o.Stats, "probe.", "fault."), traceKinds(o.Trace), len(o.Violations) > 0)
 	if o.Trace != nil {
 		o.Sample = map[string]interface{}{"seed": o.Trace.Seed, "blocks": len(o.Trace.Blocks), "updates_applied": c["probe.params_changed_by_passed_proposal"], "export_restarts": c["fault.export_restart"], "crashes": c["fault.crash_in_commit"] + c["fault.crash_before_commit"]}
 	}
